@@ -459,4 +459,13 @@ def rule_c05_protocol(ctx):
     return [c05.rule_r1(ctx), c05.rule_r23(ctx), c05.rule_r6(ctx)]
 
 
-RULES = [("C07-R1", rule_r1), ("C07-R2", rule_r2), ("C07-R3", rule_r3), ("C07-R4", rule_r4), ("C07-R5", rule_r5), ("C07-R6", rule_r6), ("C05-protocol", rule_c05_protocol)]
+def rule_c11r6(ctx):
+    """With the own unparser the signature of a converted function is printed by unparse_Lambda: a
+    default that is not printed is evaluated zero times, one attached to the wrong parameter is
+    evaluated for another argument (shared rule C11-R6)."""
+    from .c03 import lambda_skeleton_rule
+
+    return lambda_skeleton_rule(ctx)
+
+
+RULES = [("C11-R6", rule_c11r6), ("C07-R1", rule_r1), ("C07-R2", rule_r2), ("C07-R3", rule_r3), ("C07-R4", rule_r4), ("C07-R5", rule_r5), ("C07-R6", rule_r6), ("C05-protocol", rule_c05_protocol)]
